@@ -58,7 +58,7 @@ def run(v):
             # ... and all builds must agree on class, value and monochrome text
             obs = {}
             for r in read_ndjson(dump):
-                key = (r["def"], json.dumps(r["argv_bytes"]))
+                key = (r["def"], json.dumps(r["argv_bytes"]), json.dumps(r.get("env") or {}, sort_keys=True))
                 obs[key] = (r["got"], r)
             if ref is None:
                 ref = obs
